@@ -912,6 +912,39 @@ def _raise_guard_r(R, c, pol):
     return False
 
 
+# struct standard-size codes (with an explicit byte order) and NumPy's type characters on LP64 Linux
+_STRUCT = {"B": (False, 1), "H": (False, 2), "I": (False, 4), "L": (False, 4), "Q": (False, 8), "b": (True, 1), "h": (True, 2), "i": (True, 4), "l": (True, 4), "q": (True, 8)}
+_NP_CHAR = {"uint8": "B", "uint16": "H", "uint32": "I", "uint64": "L", "int8": "b", "int16": "h", "int32": "i", "int64": "l"}
+
+
+def _fmt_key(fmt):
+    """('<', size, signed) of a one-item struct format, or None"""
+    if isinstance(fmt, str) and len(fmt) == 2 and fmt[0] in "<>=!" and fmt[1] in _STRUCT:
+        signed, size = _STRUCT[fmt[1]]
+        return (fmt[0], size, signed)
+    return None
+
+
+def _fold_format(r):
+    """Constant value of a struct-format expression: literals, '+' of strings, numpy.dtype(T).char and
+    IndxIO.dtype(<const>).char (through the documented helper table; NumPy type characters as on LP64 Linux)."""
+    if r.op == "const" and isinstance(r.args[1], str):
+        return r.args[1]
+    if r.op == "binop" and r.args[0] == "+":
+        a, b = _fold_format(r.args[1]), _fold_format(r.args[2])
+        return a + b if a is not None and b is not None else None
+    if r.op == "attr" and r.args[1] == "char":
+        d = r.args[0]
+        name = None
+        if helper_arg(d, F_DTYPE) is not None and tm.is_const(helper_arg(d, F_DTYPE)):
+            name = HELPER_DTYPE.get(helper_arg(d, F_DTYPE).args[1])
+        elif is_call(d, "numpy.dtype") and d.args[1]:
+            dn = tm.dotted(d.args[1][0])
+            name = dn.split(".")[-1] if dn else None
+        return _NP_CHAR.get(name)
+    return None
+
+
 # ---------------------------------------------------------------------------- helpers
 def _helper_rules(prog, C, info):
     for name, table, f_target in (("IndxIO.format", HELPER_FMT, None), ("IndxIO.dtype", HELPER_DTYPE, None)):
@@ -925,13 +958,14 @@ def _helper_rules(prog, C, info):
             if len(rets) == 1:
                 r = rets[0]
                 if name.endswith("format"):
-                    got = r.args[1] if r.op == "const" else None
+                    got = _fold_format(r)
                 else:
                     if is_call(r, "numpy.dtype") and r.args[1]:
                         d = tm.dotted(r.args[1][0])
                         got = d.split(".")[-1] if d else None
-            C.ok(got == want, "R-C10-c", fi.fq, "%s(%d)" % (name, size), "-> %s" % (want,), "%s(%d) yields %r, the documented word needs %r" % (name, size, got, want),
-                 undecided=len(rets) != 1)
+            same = got == want or (name.endswith("format") and got is not None and _fmt_key(got) is not None and _fmt_key(got) == _fmt_key(want))
+            C.ok(same, "R-C10-c", fi.fq, "%s(%d)" % (name, size), "-> %s" % (got,), "%s(%d) yields %r%s, the documented word needs %r" % (name, size, got, " (%s bytes)" % _fmt_key(got)[1] if got and _fmt_key(got) else "", want),
+                 undecided=(len(rets) != 1 or got is None))
 
 
 # ---------------------------------------------------------------------------- writer vs reader
